@@ -86,7 +86,7 @@ def check_pool(pid, tier, seed, t0):
             known_seen[x["kf"]] = known_seen.get(x["kf"], 0) + 1
     hits = {h: n for h, n in res["hits"].items() if h.startswith(pid + ".")}
     tl = res.get("tlc", [])
-    states = res.get("judge_states", 0) + sum(r.get("states", 0) for r in tl)
+    states = res.get("judge_states", 0) + sum(r.get("states", 0) for r in tl) + res.get("followed", {}).get("states", 0)
     trans = res.get("judge_transitions", 0) + sum(r.get("transitions", 0) for r in tl)
     coverage = {
         "states": states, "transitions": trans,
@@ -103,6 +103,7 @@ def check_pool(pid, tier, seed, t0):
         "model_checking_runs": tl,
         "model_conformance": res.get("conformance", {}),
         "unbounded_lemma_apalache": res.get("lemma", {}),
+        "executed_schedules_followed_in_model": res.get("followed", {}),
         "model_drift_samples": res.get("drift", [])[:2],
         "schedules_by_driver": res["drivers"],
         "trace_records": res["events"],
